@@ -30,7 +30,7 @@ ASSUMPTIONS = ["uses the returned signal (no independent evaluator; that would b
                "no fault kind applies (no I/O, no clock inside add_signal); a raising callback is C16's subject"]
 PROBES = ["bounding_range_inside", "bounding_range_clipped_low", "bounding_range_clipped_high", "bounding_range_outside_below",
           "bounding_range_outside_above", "bounding_range_empty_or_reversed", "float32_frame_injection", "prior_noise",
-          "superposition_checked", "other_frames_alive", "integrate_f_profile_bounded"]
+          "superposition_checked", "other_frames_alive", "integrate_f_profile_bounded", "estimates_not_read_before_injection"]
 
 BOUND_KINDS = ["none", "none", "inside", "inside", "clip_low", "clip_high", "below", "above", "empty", "reversed", "whole"]
 
@@ -52,7 +52,8 @@ def generate(rng, tier):
     for _ in range(rng.randint(1, 6)):
         fi = rng.randrange(nfr)
         g = frames[fi]["geom"]
-        ops.append({"op": "inject", "fr": fi, "sig": F.gen_signal(rng, g, stateful=rng.random() < 0.4), "bounding": gen_bounding(rng)})
+        ops.append({"op": "inject", "fr": fi, "sig": F.gen_signal(rng, g, stateful=rng.random() < 0.4), "bounding": gen_bounding(rng),
+                    "observe_before": rng.random() < 0.5})
     return {"seams": {"clock_origin": 1.7e9 + rng.randrange(1000), "clock_jitter_seed": rng.randrange(1 << 20),
                       "entropy_salt": rng.randrange(1 << 20), "scratch": "c06"},
             "frames": frames, "ops": ops}
@@ -138,14 +139,20 @@ def bounding_of(b, fr):
 def execute(sc, ctx):
     frames = []
     infos = []
-    for spec in sc["frames"]:
+    twins = []        # same construction, same prior noise, never injected: what the estimates must stay equal to
+
+    def make(spec):
         fr, info = F.build_frame(spec, ctx)
         if spec["noise"] == "chi2" and fr.chi2_df > 0:
             fr.add_noise(x_mean=10)
-            ctx.hit("prior_noise")
         elif spec["noise"]:
             fr.add_noise(x_mean=10, x_std=1, noise_type="gaussian")
+        return fr, info
+    for spec in sc["frames"]:
+        fr, info = make(spec)
+        if spec["noise"]:
             ctx.hit("prior_noise")
+        twins.append(make(spec)[0])
         frames.append(fr)
         infos.append(info)
         if fr.data.dtype == np.float32:
@@ -174,7 +181,12 @@ def execute(sc, ctx):
             kw["bounding_f_range"] = r
         nfs = (hi - lo)
         path, tp, fp, bpp = F.signal_components(sig, g, fr.tchans, fr.fmin, fs_len=nfs * (kw.get("f_subsamples", 10) if kw.get("integrate_f_profile") else 1))
-        before = [F.state_fields(f) for f in frames]
+        # whether the noise estimates are read before the injection is part of the schedule: a snapshot taken
+        # before every step would compute (and cache) them at a moment the user's program may never have
+        observe_before = op.get("observe_before", True)
+        if not observe_before:
+            ctx.hit("estimates_not_read_before_injection")
+        before = [F.state_fields(f, with_noise=observe_before or k != op["fr"] % len(frames)) for k, f in enumerate(frames)]
         data_before = [np.array(f.data, copy=True) for f in frames]
         try:
             ret = fr.add_signal(path, tp, fp, bpp, **kw)
@@ -225,6 +237,17 @@ def execute(sc, ctx):
         # (4) nothing else changes, on any live frame
         for k, f in enumerate(frames):
             after = F.state_fields(f)
+            if "noise_mean" not in before[k]:
+                # not observed before: judge against the never-injected twin (estimates are only updated by noise routines)
+                tw = twins[k]
+                same = (f.noise_mean == tw.noise_mean or (f.noise_mean != f.noise_mean and tw.noise_mean != tw.noise_mean)) and \
+                       (f.noise_std == tw.noise_std or (f.noise_std != f.noise_std and tw.noise_std != tw.noise_std))
+                if not ctx.check(same, "state", "C06/state/injected_frame/noise_estimates_differ_from_untouched_twin",
+                                 lambda: "after injection (%r, %r); identical frame never injected (%r, %r)" % (
+                                     f.noise_mean, f.noise_std, tw.noise_mean, tw.noise_std)):
+                    return
+                after.pop("noise_mean")
+                after.pop("noise_std")
             d = F.diff_fields(before[k], after)
             if not ctx.check(not d, "state", "C06/state/%s_frame/%s_changed" % ("injected" if k == i else "other", "+".join(d)),
                              lambda: "fields changed by add_signal: %s" % d):
